@@ -6,8 +6,9 @@ Proof (Props/C04.v, over R): the Gallina terms regenerated from collision_core.p
 write_contact) satisfy MuJoCo's mj_contactParam rule (explicit pair verbatim; priority; solmix weight with
 the mjMINVAL corner cases; max friction; max condim; solref mix / direct-min; friction floor), the writer
 stores exactly one contact iff not skipped and there is room, includemargin = margin, return value 1 iff
-stored and active.  The unrestricted mixing rule is REFUTED by the faithful model (different priorities with
-a direct-format solref): the witness is replayed here on the real kernel and on MuJoCo.
+stored and active.  The mixing rule holds for every input since /repo commit c20ef50; the formerly refuted case
+(different priorities with a direct-format solref) is a regression theorem whose witness is replayed here on the
+real kernel and on MuJoCo.
 
 T: the translated functions are run (binary64, vm_compute) against the compiled Warp functions called from
 a private wrapper kernel on batched arrays (`worldid % shape[0]` exercised).
@@ -25,7 +26,7 @@ import propkit
 import vlib
 
 MANIFEST = {
-  "text": "proof: per-pair contact parameter logic (explicit pair verbatim, priority, solmix weight incl. mjMINVAL corner cases, max friction/condim, solref mix vs direct min, friction floor, margin/gap sums) and the write_contact decision/stores (stored iff not skipped and room, includemargin = margin, return 1 iff stored and active) over the Gallina terms regenerated from collision_core.py each run; the unrestricted mixing rule is refuted (different priorities + direct-format solref) and the witness is replayed on the real kernel and on MuJoCo; pair table/broadphase (C19/C18), allocation (C16), contact geometry, GJK/EPA and multi-contact clipping are NOT proved here: the whole pipeline is only tested against mujoco.mj_collision (random scenes with all 27 supported type pairs, 2 worlds, explicit pairs, excludes, both cones; fixed witnesses of the recorded findings and exact-boundary scenes)",
+  "text": "proof: per-pair contact parameter logic (explicit pair verbatim, priority, solmix weight incl. mjMINVAL corner cases, max friction/condim, solref mix vs direct min, friction floor, margin/gap sums) and the write_contact decision/stores (stored iff not skipped and room, includemargin = margin, return 1 iff stored and active) over the Gallina terms regenerated from collision_core.py each run; the mixing rule holds for every input (the formerly refuted case, different priorities + direct-format solref, is kept as a regression witness replayed on the real kernel and on MuJoCo); pair table/broadphase (C19/C18), allocation (C16), contact geometry, GJK/EPA and multi-contact clipping are NOT proved here: the whole pipeline is only tested against mujoco.mj_collision (random scenes with all 27 supported type pairs, 2 worlds, explicit pairs, excludes, both cones; fixed witnesses of the recorded findings and exact-boundary scenes)",
   "note": "trusted: Coq kernel; translator bin/translate.py + the local extensions of bin/gens_contact.py (array shapes as parameters, int vectors, element-wise max/min, source-prefix cut of write_contact), validated each run against the compiled Warp functions; hand model of write_contact's counter/guard/stores (checked against the regenerated store table and by correspondence); reference rule mj_contact_param written from MuJoCo's documentation and checked against the mujoco 3.13 binary by the oracle; real-number axioms of Coq's Reals",
   "technique": "Rocq proof over functions machine-translated from the source (T) + hand model with correspondence (C) + differential oracle against MuJoCo C",
   "engine": "coq",
@@ -40,7 +41,9 @@ K_CAPCAP = "C04:capsule_capsule:in-gap-contact-dropped"
 K_PLANEMESH = "C04:plane_convex:separated-within-margin-no-contact"
 K_BROADPAIR = "C04:broadphase:explicit-pair-margin-ignored"
 K_CCD = "C04:ccd:margin-inflated-epa-inaccurate"
-KNOWN_KEYS = (K_SOLREF, K_PLANEBOX, K_CAPCAP, K_PLANEMESH, K_BROADPAIR, K_CCD)
+# open findings (known_findings.json); K_SOLREF, K_CAPCAP, K_BROADPAIR were repaired in /repo (c20ef50, d4407f1, a1b67de):
+# their witnesses stay as regression cases under the same keys
+KNOWN_KEYS = (K_PLANEBOX, K_PLANEMESH, K_CCD)
 
 # =============================================================================================
 # wrapper kernels (private; call the real @wp.func of /repo)
@@ -971,9 +974,9 @@ def witness_contacts(xml):
 
 
 def witnesses(res):
-  """Replay the fixed witnesses (refuted theorem + geometry findings seen by the oracle) on MuJoCo and MJWarp."""
+  """Replay the fixed witnesses (open findings and regression cases of the repaired ones) on MuJoCo and MJWarp."""
   out = []
-  # 1. the Coq witness of C04_mix_rule_refuted on the real kernel (arrays of the theorem) ...
+  # 1. the Coq witness C04_priority_direct_solref_witness on the real kernel (arrays of the theorem) ...
   A = {
     "geom_condim": np.array([3, 3], np.int32), "geom_priority": np.array([0, 1], np.int32), "pair_dim": np.array([0], np.int32),
     "geom_solmix": _f32([[1, 1]]), "geom_solref": _f32([[[-100, -10], [0.02, 1]]]), "geom_solimp": _f32([[[0.9, 0.95, 0.001, 0.5, 2]] * 2]),
@@ -986,8 +989,11 @@ def witnesses(res):
   # ... and the same two geoms through both engines
   C, W = witness_contacts(WITNESS_XML[K_SOLREF])
   res.count(2)
-  ok_model = np.allclose(kernel_solref, [-100, -10], rtol=1e-5)  # what the theorem says the code computes
-  res.obligation("refutation witness: real contact_params returns the element-wise min (-100,-10) as the model says", ok_model, str(kernel_solref))
+  ok_model = np.allclose(kernel_solref, [0.02, 1], rtol=1e-5)  # what C04_priority_direct_solref_witness says the code computes
+  res.obligation("regression witness (priority + direct solref): real contact_params returns the higher-priority geom's solref (0.02, 1) as the theorem says", ok_model, str(kernel_solref))
+  if not ok_model:
+    out.append((K_SOLREF, f"contact_params on geoms with priority 0/1 and solref (-100,-10)/(0.02,1) returns {kernel_solref}, expected the higher-priority geom's (0.02, 1)",
+                {"xml": WITNESS_XML[K_SOLREF], "qpos": None, "kernel_solref": kernel_solref}))  # fmt: skip
   if C and W and rel_err(C[0]["solref"], W[0]["solref"]) > 1e-4:
     out.append((K_SOLREF, f"geom priorities 0/1, solref (-100,-10)/(0.02,1): mujoco.mj_collision solref {C[0]['solref']}, MJWarp {W[0]['solref']} (kernel: {kernel_solref})",
                 {"xml": WITNESS_XML[K_SOLREF], "qpos": None, "mujoco": C, "mjwarp": W}))  # fmt: skip
